@@ -36,7 +36,6 @@ var RelaxNames = []struct {
 	{"skip:unvalidated", RSkip, "skip"},
 	{"compact:str-any-escape", RStrAnyEscape, "compact"},
 	{"stream:nul-skipped", RNulSkipped, "stream"},
-	{"stream:hex-unchecked", RHexUnchecked, "stream"},
 	{"stream:leading-comma-or-colon-skipped", RLeadSep, "stream"},
 	{"stream:skip-ignores-junk-before-value", RSkip | RSkipJunk, "stream"},
 	{"stream:trailing-after-top", RTrailAfterTop, "stream"},
